@@ -7,6 +7,7 @@ GenInit == Init /\ hist = <<>>
 GenNext ==
     \/ \E f \in Files, v \in Versions : Edit(f, v) /\ hist' = Append(hist, [a |-> "Edit", f |-> f, v |-> v, p |-> "", b |-> 0])
     \/ \E p \in Procs, b \in Bits : Load(p, b) /\ hist' = Append(hist, [a |-> "Load", f |-> "", v |-> 0, p |-> p, b |-> b])
+    \/ \E p \in Procs : LoadSv(p) /\ hist' = Append(hist, [a |-> "SvLoad", f |-> "", v |-> 0, p |-> p, b |-> 64])
     \/ \E p \in Procs : NewProcess(p) /\ hist' = Append(hist, [a |-> "NewProcess", f |-> "", v |-> 0, p |-> p, b |-> 0])
 GenSpec == GenInit /\ [][GenNext]_<<vars, hist>>
 Emit == (steps = MaxSteps) => PrintT(<<"BEHAVIOUR", ToJson([steps |-> hist])>>)
